@@ -405,6 +405,10 @@ def truncFlt (f : Flt) : Outcome Py :=
   | .fin q => .ok (.int (Int.tdiv q.num q.den))
   | _ => .invalid (.ofMsgs [.badType .int (some .float)])
 
+/-- `str(f)` / `repr(f)` of a float: total in Python; the oracle table of the environment lists the floats of the datum
+    (filled by the harness from the real `repr`), any other float is given a fixed placeholder -/
+def reprFlt (env : CoerceEnv) (f : Flt) : String := (assoc? f env.reprOf).getD "<float>"
+
 /-- the default coercer (`coercion.coerce`) after the repair of rows 4 / 39: every failed conversion is a
     `bad_type` (`ValueError`, `TypeError`, `OverflowError`, `KeyError` of the word table are all caught; the
     `''`-test is guarded by `isinstance(data, str)`) -/
@@ -445,9 +449,7 @@ def coerce (env : CoerceEnv) (c : JClass) (d : Py) : Outcome Py :=
       match d with
       | .str _ => .ok d
       | .int i => .ok (.str (toString i))
-      | .float f => match assoc? f env.reprOf with
-          | some r => .ok (.str r)
-          | Option.none => .crash "unmodelled-repr"
+      | .float f => .ok (.str (reprFlt env f))
       | _ => badTypeP .str d
   | c => if d.isInstance c then .ok d else badTypeP c d
 
